@@ -152,9 +152,10 @@ def _predict_eta(gam, case, Xe):
         return _eta(case, gam.predict_mu(Xe))
 
 
-def _system(gam, case, X, y, w):
-    """B, A, per-unit working weights u (W² = w u), pseudo data z, mask, cond(N) at the fitted coefficients (NumPy formulas)"""
-    coef = np.asarray(gam.coef_, dtype=float).ravel()
+def _system(gam, case, X, y, w, coef=None):
+    """B, A, per-unit working weights u (W² = w u), pseudo data z, mask, cond(N) and the normwise backward error of the
+    score equation at the fitted coefficients (or at `coef`), all by NumPy formulas independent of pyGAM"""
+    coef = np.asarray(gam.coef_ if coef is None else coef, dtype=float).ravel()
     n, m = X.shape[0], len(coef)
     B = _dense(gam.terms.build_columns(X))
     P = _dense(gam.terms.build_penalties())
@@ -179,7 +180,22 @@ def _system(gam, case, X, y, w):
             return None
         ev = np.linalg.eigvalsh((N + N.T) / 2)
         cond = float(ev.max() / max(ev.min(), 1e-300))
-    return dict(B=B, A=A, w=wv, u=u, W2=W2, z=z, keep=keep, cond=cond, N=N, n=n, m=m)
+        grad = -2 * (B.T @ np.where(keep, W2k * (y - mu) * g, 0.0)) + 2 * (A @ coef)
+        rhs = B.T @ np.where(keep, W2k * z, 0.0)
+        be = float(np.linalg.norm(grad) / (2 * (np.linalg.norm(N, 2) * np.linalg.norm(coef) + np.linalg.norm(rhs)) + 1e-300))
+    return dict(B=B, A=A, w=wv, u=u, W2=W2, z=z, keep=keep, cond=cond, N=N, n=n, m=m, be=be)
+
+
+def _cross_stationarity(gam0, case, X, y, w, coef1):
+    """backward errors of the score equation of problem 0 (NumPy definition) at its own fit and at the coefficients of
+    the transformed fit: when both vanish although the fits differ, the problem has several stationary points
+    (non-convex deviance, constraints) and the PIRLS runs merely ended in different ones"""
+    s1 = _system(gam0, case, X, y, w, coef=coef1)
+    return float('inf') if s1 is None else s1['be']
+
+
+def _dev_finite(*gams):
+    return all(np.isfinite(float(g.statistics_['deviance'])) for g in gams)
 
 
 def _reldiff(e0, e1, scale=None):
@@ -229,8 +245,9 @@ def _job_perm(job, pygam):
     d, k, mism = _reldiff(e0, e1)
     res.update(conv=f0['conv'] and f1['conv'], cond=sysm['cond'], d_pred=d, n_cmp=k, nan_mismatch=mism, n=n, m=sysm['m'],
                d_edof=abs(f0['edof'] - f1['edof']) / (1 + abs(f0['edof'])), edof=(f0['edof'], f1['edof']),
-               nonident=bool((perm != np.arange(n)).any()))
-    if n * sysm['m'] <= 1500 and sysm['m'] <= 30:
+               nonident=bool((perm != np.arange(n)).any()), be0=sysm['be'],
+               be1=_cross_stationarity(b0['gam'], case, X, y, w, f1['coef']), dev_finite=_dev_finite(b0['gam'], b1['gam']))
+    if n * sysm['m'] <= 6000 and sysm['m'] <= 45:
         B1 = _dense(b1['gam'].terms.build_columns(X[perm].copy()))
         W2p = np.where(sysm['keep'], sysm['W2'], 0.0)[perm]
         N1 = B1.T @ (W2p[:, None] * B1)
@@ -331,7 +348,8 @@ def _job_rescale(job, pygam):
     res.update(conv=f0['conv'] and f1['conv'], cond=sysm['cond'], d_pred=d, n_cmp=k, nan_mismatch=mism, n=X.shape[0], m=sysm['m'],
                d_edof=abs(f0['edof'] - f1['edof']) / (1 + abs(f0['edof'])), edof=(f0['edof'], f1['edof']),
                dB=dB, kappa=float(kappa), nsp=nsp, ek_bad=float(ek_bad), safe=bool(safe), exact_map=bool(exact_map),
-               nonident=True)
+               nonident=True, be0=sysm['be'], be1=_cross_stationarity(g0, case, X, y, w, f1['coef']),
+               dev_finite=_dev_finite(g0, g1))
     # model side: 3 evaluation rows (only programs the exact model evaluates cheaply)
     if safe and sysm['m'] <= 160:
         toks = ' '.join(termgen.encode_terms(g0.terms))
@@ -383,8 +401,9 @@ def _job_repl(job, pygam):
     d, k, mism = _reldiff(e0, e1)
     res.update(conv=f0['conv'] and f1['conv'], cond=sysm['cond'], d_pred=d, n_cmp=k, nan_mismatch=mism, n=n, m=sysm['m'],
                d_edof=abs(f0['edof'] - f1['edof']) / (1 + abs(f0['edof'])), edof=(f0['edof'], f1['edof']),
-               n_repl=int(len(idx)), zeros=int((w == 0).sum()), nonident=bool((w != 1).any()))
-    if len(idx) * sysm['m'] <= 1800 and sysm['m'] <= 30:
+               n_repl=int(len(idx)), zeros=int((w == 0).sum()), nonident=bool((w != 1).any()), be0=sysm['be'],
+               be1=_cross_stationarity(b0['gam'], case, X, y, w, f1['coef']), dev_finite=_dev_finite(b0['gam'], b1['gam']))
+    if len(idx) * sysm['m'] <= 8000 and sysm['m'] <= 45:
         B1 = _dense(b1['gam'].terms.build_columns(X[idx].copy()))
         ux = np.where(np.isfinite(sysm['u']), sysm['u'], 0.0)
         zx = np.where(np.isfinite(sysm['z']), sysm['z'], 0.0)
@@ -500,7 +519,7 @@ def _job_linear(job, pygam):
                    rank_margin=_rank_margin(b0['gam'], s0['cov']), dev=dev, M=M, n_minus_edof=float(n - f0['edof']),
                    nonident=(c != 1.0))
         y2x = _second_response(rs, X, y)
-    if n * sysm['m'] <= 700 and sysm['m'] <= 14:
+    if n * sysm['m'] <= 3000 and sysm['m'] <= 24:
         res['op'] = 'C12 lin %d %d | %s | %s | %s | %s | %s | %s' % (
             n, sysm['m'], _qs(sysm['B']), _qs(sysm['A']), _qs(sysm['w']), _qs(y), _qs(y2x), _q(c))
         res['Btr'] = sysm['B']
@@ -558,13 +577,22 @@ def _judge(r):
                 bad.append('model matrix of the rescaled problem differs from the original by %.3g (relative) > %.3g' % (r['dB'], tolB))
             if not (r['ek_bad'] <= 1e-12):
                 bad.append('compiled edge knots of the rescaled problem are not the mapped edge knots (relative error %.3g)' % r['ek_bad'])
-        tol = 10 * max(thr, 10 * r['cond'] * shift)
+        # predictions: the measured difference of the two model matrices acts like a data perturbation of that size
+        tol = 10 * max(thr, 10 * r['cond'] * min(r['dB'], tolB))
         if tol > 1e-2 or not r['safe']:
             return bad, thr, bool(bad)
+    if kind in ('perm', 'rescale', 'repl') and not r['dev_finite']:
+        return bad, thr, bool(bad)      # fitted means outside the domain of the distribution: not a fit of the model
+    fitbad = []
     if not (r['d_pred'] <= tol):
-        bad.append('predictions differ by %.3g (relative, link scale) > %.3g' % (r['d_pred'], tol))
+        fitbad.append('predictions differ by %.3g (relative, link scale) > %.3g' % (r['d_pred'], tol))
     if not (r['d_edof'] <= tol):
-        bad.append('edof differs: %s (relative %.3g > %.3g)' % (list(r['edof']), r['d_edof'], tol))
+        fitbad.append('edof differs: %s (relative %.3g > %.3g)' % (list(r['edof']), r['d_edof'], tol))
+    if fitbad and kind in ('perm', 'rescale', 'repl') and r['be0'] <= 1e-6 and r['be1'] <= 1e-6:
+        # both coefficient vectors are stationary points of the same (NumPy-defined) penalised deviance
+        r['multi'] = True
+        fitbad = []
+    bad += fitbad
     if kind == 'scale':
         s0, s1 = r['scale']
         # |dev' - dev| <= 2 sqrt(dev M) delta + delta² M for a relative perturbation delta of the fitted values
@@ -659,6 +687,10 @@ def run(ctx):
                 ctx.count('%s: log10(pred diff / thr)' % kind, int(np.floor(np.log10(max(r['d_pred'], 1e-300) / thr))) if r['d_pred'] > 0 else 'exact')
         if r.get('nan_mismatch'):
             ctx.count('non-finite predictions in one fit only', kind, r['nan_mismatch'])
+        if r.get('multi'):
+            ctx.count('different stationary points of the same problem (both score equations hold to 1e-6)', kind)
+        if kind in ('perm', 'rescale', 'repl') and not r['dev_finite']:
+            ctx.count('fitted means outside the domain (deviance not finite): not judged', kind)
         if kind == 'rescale':
             ctx.count('rescale: knot-safe', str(r['safe']))
             ctx.count('rescale: a decade', int(np.floor(np.log10(max(max(r['a']), 1.0 / min(r['a']))))))
